@@ -103,7 +103,7 @@ func buildC02(t interface {
 			code = append(code, app.Inst{Op: app.MOUT, A: label, B: fmt.Sprintf("%d", i)})
 		}
 	} else {
-		a.Ext = append(a.Ext, &app.ExtSym{Name: "sk", Size: 0, Script: []app.ExtBehav{{Sink: true, Rows: lens}}})
+		a.Ext = append(a.Ext, &app.ExtSym{Name: "sk", Size: 0, Script: []app.ExtBehav{{Sink: true, Rows: lens, Uni: t.Chance(1, 4)}}})
 		code = append(code, app.Inst{Op: app.LOAD, A: "sk", N: 0})
 		if t.Chance(1, 2) {
 			x.valSym = "va"
@@ -120,8 +120,15 @@ func buildC02(t interface {
 			x.ordinary = append(x.ordinary, sel)
 		}
 	}
-	x.nextLabel = []string{"nx", "forward"}[t.Int(2)]
-	x.prevLabel = []string{"pv", "backward"}[t.Int(2)]
+	x.nextLabel = []string{"nx", "forward", "nx2"}[t.Int(3)]
+	x.prevLabel = []string{"pv", "backward", "pv2"}[t.Int(3)]
+	// labels may resolve to text with multi-byte characters
+	if x.nextLabel == "nx2" {
+		a.Labels["nx2"] = map[string]string{"": "nèste →"}
+	}
+	if x.prevLabel == "pv2" {
+		a.Labels["pv2"] = map[string]string{"": "førrige ←"}
+	}
 	code = append(code, app.Inst{Op: app.MNEXT, A: x.nextLabel, B: x.nextSel})
 	code = append(code, app.Inst{Op: app.MPREV, A: x.prevLabel, B: x.prevSel})
 	if x.msink {
@@ -142,6 +149,16 @@ func buildC02(t interface {
 	return x
 }
 
+// labelText is what a label resolves to (its default entry, else the label symbol itself).
+func (x *c02App) labelText(l string) string {
+	if m := x.a.Labels[l]; m != nil {
+		if v, ok := m[""]; ok {
+			return v
+		}
+	}
+	return l
+}
+
 type c02Page struct {
 	sink    string
 	hasNext bool
@@ -154,7 +171,7 @@ func runC02(c *core.Ctx) *core.Outcome {
 	o := core.NewOutcome()
 	x := buildC02(t)
 	cfg := world.Cfg{Backend: world.BackMem, FinishAlways: true}
-	cfg.MenuSep = []string{"", ". ", ")"}[t.Weighted(3, 1, 1)]
+	cfg.MenuSep = []string{"", ". ", ")", " · "}[t.Weighted(4, 1, 1, 1)]
 	sep := cfg.MenuSep
 	if sep == "" {
 		sep = ":"
@@ -214,9 +231,9 @@ func runC02(c *core.Ctx) *core.Outcome {
 		var lines []string
 		for _, l := range pg.Menu {
 			switch {
-			case strings.HasPrefix(l, x.nextSel+sep) && (strings.HasSuffix(l, "nx") || strings.HasSuffix(l, "forward")):
+			case l == x.nextSel+sep+x.labelText(x.nextLabel):
 				p.hasNext = true
-			case strings.HasPrefix(l, x.prevSel+sep) && (strings.HasSuffix(l, "pv") || strings.HasSuffix(l, "backward")):
+			case l == x.prevSel+sep+x.labelText(x.prevLabel):
 				p.hasPrev = true
 			default:
 				lines = append(lines, l)
@@ -302,9 +319,9 @@ func runC02(c *core.Ctx) *core.Outcome {
 			if strings.HasPrefix(allRows, done) {
 				rest := strings.TrimPrefix(strings.TrimPrefix(allRows, done), "\n")
 				restRows := strings.Split(rest, "\n")
-				need := staticLen + len(restRows[0]) + 1 + len(x.prevSel) + len(sep) + len(x.prevLabel)
+				need := staticLen + len(restRows[0]) + 1 + len(x.prevSel) + len(sep) + len(x.labelText(x.prevLabel))
 				if len(restRows) > 1 {
-					need += 1 + len(x.nextSel) + len(sep) + len(x.nextLabel)
+					need += 1 + len(x.nextSel) + len(sep) + len(x.labelText(x.nextLabel))
 				}
 				if need > size {
 					cause = "row-exceeds-page-with-browse-entries"
